@@ -8,11 +8,15 @@ SPEC = dict(
     exhaustive=True,
     rule="a real QXmppClient (default extensions) connects over loopback TCP to an in-process scripted QSslSocket server that "
          "speaks the model's alphabet one element per op and completes real TLS handshakes (self-signed key made with openssl at "
-         "harness start). Scripts: every sequence up to length 3 (quick) / 4 (thorough) over a 14-symbol alphabet {header with/"
+         "harness start). Scripts: every sequence up to length 3 (quick) / 4 (thorough) over a 16-symbol alphabet {header with/"
          "without version, features with/without starttls (+mechanisms, legacy auth, bind, SASL2), proceed with good/failed "
-         "handshake, XEP-0078 field offer, iq get known/unknown, SASL success, bind result, see-other-host, message} for TLS "
+         "handshake, XEP-0078 field offer, iq get known/unknown, SASL success, bind result, see-other-host, message, a version IQ in a "
+         "FOREIGN namespace, a white space keep-alive} for TLS "
          "required with and without legacy auth, one level less for TLS enabled/disabled; plus seeded random scripts of length "
-         "3-12 over a 67-symbol alphabet driven by a protocol-conforming server that is derailed with probability 1/3 per step, "
+         "3-12 over an 88-symbol alphabet (adds: iq get/set/result, message, presence in a foreign / the empty / the jabber:server namespace, "
+         "<r/> and <a/>, SASL/SASL2/SM/bind answers at any time incl. before TLS, starttls <failure/>, half an element, stream error + "
+         "</stream:stream> in ONE segment, see-other-host + close in one segment, TCP reset, header + features / header + stanza in ONE "
+         "segment) driven by a protocol-conforming server that is derailed with probability 1/3 per step, "
          "with random configurations (TLS mode x SASL2/SASL/legacy on/off x PLAIN allowed x token/user-agent x XEP-0078 preference x CSI "
          "inactive). Every op gives one line comparing, between client and Lean model, the ordered list of classified sends (kind, "
          "link clear/encrypted/down at the instant of sending, secret marker) and signals (connected/disconnected/error/request "
@@ -21,7 +25,11 @@ SPEC = dict(
          "elements and classified; with TLS required anything but stream open/starttls/stream close, or any occurrence of the "
          "password, its base64/SASL PLAIN form, its XEP-0078 digest or the token HMAC, is a failure keyed by element kind and by the "
          "cause visible in the script; features without starttls on a well-formed unencrypted connection must end in a closed "
-         "connection and state()==Disconnected; the client-side log view and the server-side byte view must agree.",
+         "connection and state()==Disconnected; the client-side log view and the server-side byte view must agree. Timers: three scenarios with "
+         "the keep-alive ping interval at 1 s and 1.4 s of real time passing before TLS (first connection; connection opened after a "
+         "see-other-host inside an established session, without and with stream management) - nothing may be written; judged by the oracle "
+         "only, time is not an op of the model. NOT modelled/exercised: elements that follow, in the same read, an element that makes the client "
+         "disconnect or start the TLS handshake (<proceed/> + more data in one segment).",
     trusted_base=[
         "Lean 4.33.0 kernel; axioms per theorem listed under coverage.theorems (subset of propext, Classical.choice, Quot.sound)",
         "hand-written model lean/Qx/Model/C04Negotiation.lean of QXmppOutgoingClient / XmppSocket / StreamAckManager / the slots of "
@@ -30,17 +38,23 @@ SPEC = dict(
         "one element per read: the scripted server waits for the client to become quiescent after every element",
     ],
     assumptions=[
-        "scope (the only hypothesis of the theorem, application side): the application itself does not send requests before the session exists "
+        "server side (named hypothesis noEarlyBypass, needed because of the OPEN finding below): before the link is encrypted the server sends "
+        "neither a version/disco IQ in a non-jabber:client namespace nor <r/>; without it the theorem is false (C04_defect_foreign_namespace_iq_answered_in_clear)",
+        "scope (application side, hypothesis appWaits): the application itself does not send requests before the session exists "
         "and calls connectToServer only while disconnected (calling it on a live TLS link makes QSslSocket::connectToHost reset the socket "
         "to plaintext mode - observed, outside the property, which quantifies over servers)",
         "QSslSocket::supportsSsl() is true in this environment: the localTls=false branch of the model is proved but not exercised on the implementation",
         "mechanism selection is abstracted to {PLAIN, SCRAM-SHA-1, HT-SHA-256-NONE, unsupported} (full ranking: C05); SM counters/acks: C09; framing: C03",
     ],
-    level_text="Theorem over ALL server scripts of any length: with TLS required nothing but stream open/starttls/stream close is ever "
-               "written to an unencrypted wire (invariant proof over the model's step function; no hypothesis about the server), hence no "
-               "password, digest or token; plus 'TLS unavailable => stream close, disconnected' for every reachable waiting state, "
-               "'version-less header => give up' and 'IQ request before TLS => rejected' for every configuration. The two scripts that used to "
-               "leak (fixed by e0bbad9 and fa0779c) are replayed first on the real client.",
+    level_text="PARTIAL (open finding): theorem over all server scripts of any length that satisfy noEarlyBypass (no foreign-namespace version/disco "
+               "IQ and no <r/> before encryption): with TLS required nothing but stream open/starttls/stream close is ever "
+               "written to an unencrypted wire, hence no password, digest or token. C04_defect_foreign_namespace_iq_answered_in_clear proves the "
+               "hypothesis necessary: <iq xmlns='urn:foo' type='get'><query xmlns='jabber:iq:version'/></iq> right after the header is answered "
+               "in clear (the fa0779c guard tests the jabber:client namespace only); reproduced on the real client, fix "
+               "fixes/C04-pre-tls-guard-all-namespaces.diff. Unconditional for every configuration and every state waiting for TLS: features "
+               "without starttls, <failure/> to starttls, and <proceed/> + failed handshake each end in stream close + disconnected "
+               "(tls_unavailable_disconnects, starttls_failure_disconnects, failed_handshake_disconnects); 'version-less header => give up'; "
+               "'jabber:client IQ request before TLS => rejected'. The scripts that used to leak (fixed by e0bbad9 and fa0779c) are replayed first.",
     level_note="Also proved: an application that sends only while isConnected() (and connects only while disconnected) satisfies the scope "
                "hypothesis automatically - with TLS required isConnected() implies an encrypted link; and a request sent on a connected "
                "unencrypted link does go out in clear (the scope hypothesis cannot be dropped). Proved about the hand-written model; the model-to-code tie is differential (exhaustive to depth 3/4 over a reduced "
